@@ -178,6 +178,13 @@ impl StreamId {
         
         // Same millisecond, increment sequence
         let seq = last_seq.fetch_add(1, Ordering::Relaxed);
+        if seq == u64::MAX {
+            // The sequence numbers of this millisecond are used up: continue in the next one
+            let next_millis = prev_millis + 1;
+            last_millis.store(next_millis, Ordering::Relaxed);
+            last_seq.store(0, Ordering::Relaxed);
+            return StreamId::new(next_millis, 0);
+        }
         StreamId::new(prev_millis, seq + 1)
     }
     
